@@ -355,23 +355,22 @@ fn check_len_delimited(r: &Result<Vec<u8>, SerError>, data: &[u8]) {
 	}
 }
 
-//@ harness: c02_bytes_and_str
+//@ harness: c02_bytes_presentation
 //@   props: C02, C01
 //@   tier: quick
-//@   kind: bounded(payload length <= 4, content symbolic)
-//@   fn: ser::serializer::DatumSerializer::{serialize_bytes, serialize_str} + SerializerState::write_length_delimited
-//@   domain: every byte content of length 0..=4 on bytes and string nodes; every ASCII str of length 0..=4 on string, bytes and uuid nodes
+//@   kind: bounded(payload length <= 3, content symbolic)
+//@   fn: ser::serializer::DatumSerializer::serialize_bytes + SerializerState::write_length_delimited
+//@   domain: every byte content of length 0..=3 on bytes and string nodes
 //@   post: output == spec long(len) ++ payload, nothing else
 #[kani::proof]
-#[kani::unwind(8)]
+#[kani::unwind(7)]
 #[kani::stub(alloc::fmt::format, stub_format)]
-fn c02_bytes_and_str() {
+fn c02_bytes_presentation() {
 	static BY: SchemaNode<'static> = SchemaNode::Bytes;
 	static ST: SchemaNode<'static> = SchemaNode::String;
-	static UU: SchemaNode<'static> = SchemaNode::Uuid;
-	let buf: [u8; 4] = kani::any();
+	let buf: [u8; 3] = kani::any();
 	let len: usize = kani::any();
-	kani::assume(len <= 4);
+	kani::assume(len <= 3);
 	let data = &buf[..len];
 	let r = ser_with(&BY, |s| s.serialize_bytes(data));
 	check_len_delimited(&r, data);
@@ -379,9 +378,29 @@ fn c02_bytes_and_str() {
 	let r = ser_with(&ST, |s| s.serialize_bytes(data));
 	check_len_delimited(&r, data);
 	std::mem::forget(r);
-	// str presentation: content restricted to ASCII so that it is a valid &str (UTF-8 validity is a
-	// precondition of &str itself, not of the serializer)
-	kani::assume(buf[0] < 128 && buf[1] < 128 && buf[2] < 128 && buf[3] < 128);
+}
+
+//@ harness: c02_str_presentation
+//@   props: C02, C01
+//@   tier: quick
+//@   kind: bounded(payload length <= 3, ASCII content symbolic)
+//@   fn: ser::serializer::DatumSerializer::serialize_str + SerializerState::write_length_delimited
+//@   domain: every ASCII str of length 0..=3 on string, bytes and uuid nodes
+//@   post: output == spec long(len) ++ the str's bytes, nothing else
+#[kani::proof]
+#[kani::unwind(7)]
+#[kani::stub(alloc::fmt::format, stub_format)]
+fn c02_str_presentation() {
+	static BY: SchemaNode<'static> = SchemaNode::Bytes;
+	static ST: SchemaNode<'static> = SchemaNode::String;
+	static UU: SchemaNode<'static> = SchemaNode::Uuid;
+	let buf: [u8; 3] = kani::any();
+	let len: usize = kani::any();
+	kani::assume(len <= 3);
+	// content restricted to ASCII so that it is a valid &str (UTF-8 validity is a precondition of
+	// &str itself, not of the serializer)
+	kani::assume(buf[0] < 128 && buf[1] < 128 && buf[2] < 128);
+	let data = &buf[..len];
 	let st = unsafe { std::str::from_utf8_unchecked(data) };
 	let r = ser_with(&ST, |s| s.serialize_str(st));
 	check_len_delimited(&r, data);
